@@ -1,11 +1,13 @@
 /-
 C02 (continued) — the Kruskal, Tucker and sum-tensor kernels of `ktensor.py`, `ttensor.py`,
 `sumtensor.py` equal the definitions of `Spec/Multilinear.lean` applied to the array the object
-denotes (`Ktensor.get`, `Ttensor.get`, the cell-wise sum of the parts).
+denotes: `Ktensor.get` (`Σ_r λ_r ∏ₙ Aₙ[iₙ,r]`), `Ttensor.get` (`Σ_j G[j] ∏ₙ Uₙ[iₙ,jₙ]`), and for a sum
+tensor the cell-wise sum of what its parts denote (`MLK.sumDen`).  All shapes, orders and ranks.
 Only property theorems and non-vacuity examples; proofs are in Lemmas/MLKruskal.lean,
-MLTuckerOps.lean, MLSum.lean.
+MLTuckerOps.lean, MLSum.lean.  `MLK.kresGet/kresShape`, `MLK.tresGet/tresShape`,
+`MLK.partResGet`, `MLK.sumResGet` are the one denotation of a scalar-or-object result.
 -/
-import PyttbModel.Lemmas.MLKruskal
+import PyttbModel.Lemmas.MLSum
 namespace Pyttb
 
 variable {α : Type}
@@ -14,9 +16,10 @@ variable {α : Type}
 
 /-- `ktensor.ttv` after mode designation, for distinct in-range modes and vectors as long as the
 factor has rows: each selected factor is contracted with its vector into the weights.  Every mode
-selected → the scalar `Σ_r λ'_r`; otherwise a Kruskal tensor over the remaining factors (same number
-of components).  Through the one denotation of either result kind, the value at every remaining
-coordinate is `Σ_{k ∈ fiber} ⟦K⟧[k]·∏_d v_d[k_d]`.  No assumption on the weights or the row lengths. -/
+selected → the scalar `Σ_r λ'_r`; otherwise a Kruskal tensor over the remaining factors with the same
+number of components (never a scalar).  Through the one denotation of either result kind, the value
+at every remaining coordinate is `Σ_{k ∈ fiber} ⟦K⟧[k]·∏_d v_d[k_d]`.  Nothing is assumed of the
+weights or of the row lengths of the factors. -/
 theorem C02_ttv_kruskal [CommSemiring α] (K : Ktensor α) (pairs : List (Nat × List α))
     (hnd : (pairs.map (·.1)).Nodup) (hlt : ∀ p ∈ pairs, p.1 < K.factors.length)
     (hlen : ∀ p ∈ pairs, p.2.length = K.shape.getD p.1 0)
@@ -24,6 +27,7 @@ theorem C02_ttv_kruskal [CommSemiring α] (K : Ktensor α) (pairs : List (Nat ×
     ∃ r, K.ttvCore pairs = .ok r ∧ MLK.kresShape r = Spec.ttvShape K.shape (pairs.map (·.1)) ∧
       (∀ K', r = .obj K' → K'.weights.length = K.weights.length ∧
         K'.factors = gatherD K.factors (complDims K.factors.length (pairs.map (·.1))) []) ∧
+      ((∃ v, r = .scalar v) ↔ complDims K.factors.length (pairs.map (·.1)) = []) ∧
       ∀ i, InBounds (MLK.kresShape r) i → MLK.kresGet r i = Spec.ttv K.den (pairs.map (·.1)) w i :=
   MLK.kruskal_ttvCore_spec K pairs hnd hlt hlen w hw
 
@@ -33,11 +37,12 @@ theorem C02_ttv_kruskal_dims [CommSemiring α] (K : Ktensor α) (d : List Nat) (
     (hsz : ∀ p ∈ d.zip vs, p.2.length = K.shape.getD p.1 0)
     (w : Nat → Nat → α) (hw : ∀ p ∈ d.zip vs, ∀ k, w p.1 k = p.2.getD k 0) :
     ∃ r, K.ttv vs (some (d.map Int.ofNat)) none = .ok r ∧ MLK.kresShape r = Spec.ttvShape K.shape d ∧
+      ((∃ v, r = .scalar v) ↔ complDims K.factors.length d = []) ∧
       ∀ i, InBounds (MLK.kresShape r) i → MLK.kresGet r i = Spec.ttv K.den d w i :=
   MLK.kruskal_ttv_dims K d vs hd hN hl hsz w hw
 
 /-- `ktensor.innerprod(ktensor)` (weighted sum of the Hadamard product of the Gram matrices
-`AₙᵀBₙ`) is `Σ_k ⟦K⟧[k]·⟦L⟧[k]`; different shapes are rejected. -/
+`AₙᵀBₙ`) is `Σ_k ⟦K⟧[k]·⟦L⟧[k]`, for any two ranks; different shapes are rejected. -/
 theorem C02_innerprod_kruskal_kruskal [CommSemiring α] (K L : Ktensor α) :
     (K.shape = L.shape → K.innerprodK L = .ok (Spec.inner K.den L.den)) ∧
     (K.shape ≠ L.shape → K.innerprodK L = .error .reject) :=
@@ -48,29 +53,291 @@ theorem C02_innerprod_kruskal_kruskal [CommSemiring α] (K L : Ktensor α) :
 theorem C02_norm_kruskal [CommSemiring α] (K : Ktensor α) : K.normSq = Spec.normSq K.den :=
   MLK.kruskal_normSq_spec K
 
-/-- `ktensor.mttkrp(U, n)` with a list of factor matrices: entry `[i, r]` is
-`Σ_{k, k_n = i} ⟦K⟧[k] ∏_{m ≠ n} U_m[k_m, r]`. -/
+/-- `ktensor.mttkrp(U, n)` with a list of factor matrices (`U_m` has as many rows as mode `m`, `R`
+columns, `m ≠ n`; at least two modes; the modes other than `n` non-empty): an `I_n × R` matrix whose
+entry `[i, r]` is `Σ_{k, k_n = i} ⟦K⟧[k] ∏_{m ≠ n} U_m[k_m, r]`. -/
 theorem C02_mttkrp_kruskal [CommSemiring α] (K : Ktensor α) (U : List (Mat α)) (n R : Nat)
     (hN2 : 2 ≤ K.factors.length) (hn : n < K.factors.length) (hlen : U.length = K.factors.length)
     (hrows : ∀ m, m < K.factors.length → m ≠ n → (U.getD m []).length = (K.factors.getD m []).length)
     (hcols : ∀ m, m < K.factors.length → m ≠ n → ∀ row ∈ U.getD m [], row.length = R)
     (hpos : ∀ m, m < K.factors.length → m ≠ n → 0 < (K.factors.getD m []).length) :
-    ∃ V, K.mttkrp (.list U) n = .ok V ∧
+    ∃ V, K.mttkrp (.list U) n = .ok V ∧ V.length = (K.factors.getD n []).length ∧ (∀ row ∈ V, row.length = R) ∧
       ∀ i r, i < (K.factors.getD n []).length → r < R →
         V.get i r = Spec.mttkrp K.den (fun m x c => (U.getD m []).get x c) (fun _ => 1) n i r :=
   MLK.kruskal_mttkrp_list_spec K U n R hN2 hn hlen hrows hcols hpos
 
-/-- `ktensor.mttkrp(L, n)` with a Kruskal operand: its weights scale the columns. -/
+/-- `ktensor.mttkrp(L, n)` with a Kruskal operand: its weights (absorbed by `get_mttkrp_factors` into
+mode 1 or 0) scale the columns. -/
 theorem C02_mttkrp_kruskal_kruskal [CommSemiring α] (K L : Ktensor α) (n R : Nat)
     (hN2 : 2 ≤ K.factors.length) (hn : n < K.factors.length) (hlen : L.factors.length = K.factors.length)
     (hw : L.weights.length = R)
     (hrows : ∀ m, m < K.factors.length → m ≠ n → (L.factors.getD m []).length = (K.factors.getD m []).length)
     (hcols : ∀ m, m < K.factors.length → m ≠ n → ∀ row ∈ L.factors.getD m [], row.length = R)
     (hpos : ∀ m, m < K.factors.length → m ≠ n → 0 < (K.factors.getD m []).length) :
-    ∃ V, K.mttkrp (.kruskal L) n = .ok V ∧
+    ∃ V, K.mttkrp (.kruskal L) n = .ok V ∧ V.length = (K.factors.getD n []).length ∧ (∀ row ∈ V, row.length = R) ∧
       ∀ i r, i < (K.factors.getD n []).length → r < R →
         V.get i r = Spec.mttkrp K.den (fun m x c => (L.factors.getD m []).get x c)
           (fun r => L.weights.getD r 0) n i r :=
   MLK.kruskal_mttkrp_kruskal_spec K L n R hN2 hn hlen hw hrows hcols hpos
+
+/-- `ktensor.innerprod(tensor)` (and `tensor.innerprod(ktensor)`, which dispatches to the same code):
+one full dense `ttv` with the `r`-th columns per component, weighted and added, is `Σ_k ⟦K⟧[k]·D[k]`. -/
+theorem C02_innerprod_kruskal_dense [CommSemiring α] [DecidableEq α] (K : Ktensor α) (D : Dense α) (hD : D.WF)
+    (hs : K.shape = D.shape) :
+    ML.Part.innerprod (.kruskal K) (.dense D) = .ok (Spec.inner K.den D.den) ∧
+    ML.Part.innerprod (.dense D) (.kruskal K) = .ok (Spec.inner D.den K.den) :=
+  ⟨MLK.kruskalVia_spec K (.dense D) hD hs, MLK.kruskalVia_spec' K (.dense D) hD hs⟩
+
+/-- `ktensor.innerprod(sptensor)` (and the reverse call): one full sparse `ttv` per component. -/
+theorem C02_innerprod_kruskal_sparse [CommSemiring α] [DecidableEq α] (K : Ktensor α) (S : Sparse α) (hS : S.WF)
+    (hs : K.shape = S.shape) :
+    ML.Part.innerprod (.kruskal K) (.sparse S) = .ok (Spec.inner K.den S.den) ∧
+    ML.Part.innerprod (.sparse S) (.kruskal K) = .ok (Spec.inner S.den K.den) :=
+  ⟨MLK.kruskalVia_spec K (.sparse S) hS hs, MLK.kruskalVia_spec' K (.sparse S) hS hs⟩
+
+/-- `ktensor.innerprod(ttensor)` (and the reverse call): one full Tucker `ttv` per component. -/
+theorem C02_innerprod_kruskal_tucker [CommSemiring α] [DecidableEq α] (K : Ktensor α) (T : Ttensor α)
+    (hT : ML.TuckerWF T) (hN : 1 ≤ T.factors.length) (hs : K.shape = T.shape) :
+    ML.Part.innerprod (.kruskal K) (.tucker T) = .ok (Spec.inner K.den T.den) ∧
+    ML.Part.innerprod (.tucker T) (.kruskal K) = .ok (Spec.inner T.den K.den) :=
+  ⟨MLK.kruskalVia_spec K (.tucker T) ⟨hT, hN⟩ hs, MLK.kruskalVia_spec' K (.tucker T) ⟨hT, hN⟩ hs⟩
+
+/-! ### Tucker tensors -/
+
+/-- `ttensor.ttv` after mode designation (Tucker tensor with one factor per core mode, factor `d`
+having as many columns as core mode `d` has entries): every selected factor is contracted with its
+vector (`Uₙᵀv`), the core is multiplied by the results with the dense `ttv`, the other factors are
+kept.  A scalar exactly when every mode is selected; either way the result denotes
+`Σ_{k ∈ fiber} ⟦T⟧[k]·∏_d v_d[k_d]`. -/
+theorem C02_ttv_tucker [CommSemiring α] (T : Ttensor α) (hT : ML.TuckerWF T) (pairs : List (Nat × List α))
+    (hnd : (pairs.map (·.1)).Nodup) (hlt : ∀ p ∈ pairs, p.1 < T.factors.length)
+    (hlen : ∀ p ∈ pairs, p.2.length = T.shape.getD p.1 0)
+    (w : Nat → Nat → α) (hw : ∀ p ∈ pairs, ∀ k, w p.1 k = p.2.getD k 0) :
+    ∃ r, T.ttvCore pairs = .ok r ∧ MLK.tresShape r = Spec.ttvShape T.shape (pairs.map (·.1)) ∧
+      ((∃ v, r = .scalar v) ↔ complDims T.factors.length (pairs.map (·.1)) = []) ∧
+      ∀ i, InBounds (MLK.tresShape r) i → MLK.tresGet r i = Spec.ttv T.den (pairs.map (·.1)) w i :=
+  MLK.tucker_ttvCore_spec T hT pairs hnd hlt hlen w hw
+
+/-- `ttensor.ttv` as called with `dims` listed in any order and one vector per listed mode. -/
+theorem C02_ttv_tucker_dims [CommSemiring α] (T : Ttensor α) (hT : ML.TuckerWF T) (d : List Nat)
+    (vs : List (List α)) (hd : d.Nodup) (hN : ∀ x ∈ d, x < T.factors.length) (hl : vs.length = d.length)
+    (hsz : ∀ p ∈ d.zip vs, p.2.length = T.shape.getD p.1 0)
+    (w : Nat → Nat → α) (hw : ∀ p ∈ d.zip vs, ∀ k, w p.1 k = p.2.getD k 0) :
+    ∃ r, T.ttv vs (some (d.map Int.ofNat)) none = .ok r ∧ MLK.tresShape r = Spec.ttvShape T.shape d ∧
+      ((∃ v, r = .scalar v) ↔ complDims T.factors.length d = []) ∧
+      ∀ i, InBounds (MLK.tresShape r) i → MLK.tresGet r i = Spec.ttv T.den d w i :=
+  MLK.tucker_ttv_dims T hT d vs hd hN hl hsz w hw
+
+/-- `ttensor.ttm(list, dims, transpose)` with `dims` in any order and one matrix per listed mode,
+plain and transposed: the matrices multiply the factors of their modes, the core and the other
+factors are kept; the selected extents become the row counts of the effective matrices and
+`Y[i] = Σ_{k = i off sel} ⟦T⟧[k]·∏_{d ∈ sel} M_d[i_d, k_d]`. -/
+theorem C02_ttm_tucker [CommSemiring α] (T : Ttensor α) (hT : ML.TuckerWF T) (d : List Nat)
+    (Ms : List (Dense.MatArg α)) (tr : Bool) (Mf : Nat → Nat → Nat → α)
+    (hd : d.Nodup) (hN : ∀ x ∈ d, x < T.factors.length) (hl : Ms.length = d.length)
+    (hsz : ∀ p ∈ d.zip Ms, (if tr then p.2.m else p.2.n) = T.shape.getD p.1 0)
+    (hM : ∀ p ∈ d.zip Ms, ∀ a b, Mf p.1 a b = if tr then p.2.rows.get b a else p.2.rows.get a b) :
+    ∃ T', T.ttm Ms (some (d.map Int.ofNat)) none tr = .ok T' ∧ T'.core = T.core ∧
+      T'.shape.length = T.shape.length ∧
+      (∀ m, m < T.factors.length → m ∉ d → T'.factors.getD m [] = T.factors.getD m []) ∧
+      (∀ p ∈ d.zip Ms, T'.shape.getD p.1 0 = if tr then p.2.n else p.2.m) ∧
+      ∀ i, InBounds T'.shape i → T'.get i = Spec.ttm T.den d Mf i :=
+  MLK.tucker_ttm_dims T hT d Ms tr Mf hd hN hl hsz hM
+
+/-- `ttensor.mttkrp(U, n)` with a list of factor matrices: the matrices `UₘᵀVₘ` go into the dense
+`mttkrp` of the core, whose result is multiplied by `Uₙ`.  An `I_n × R` matrix with entry `[i, r]`
+`Σ_{k, k_n = i} ⟦T⟧[k] ∏_{m ≠ n} V_m[k_m, r]` (at least two modes, non-empty modes and core modes). -/
+theorem C02_mttkrp_tucker [CommSemiring α] (T : Ttensor α) (hT : ML.TuckerWF T) (U : List (Mat α)) (n R : Nat)
+    (hN2 : 2 ≤ T.factors.length) (hn : n < T.factors.length) (hlen : U.length = T.factors.length)
+    (hrows : ∀ m, m < T.factors.length → m ≠ n → (U.getD m []).length = (T.factors.getD m []).length)
+    (hcols : ∀ m, m < T.factors.length → m ≠ n → ∀ row ∈ U.getD m [], row.length = R)
+    (hpos : ∀ m, m < T.factors.length → m ≠ n → 0 < (T.factors.getD m []).length)
+    (hcpos : ∀ e ∈ T.core.shape, 0 < e) :
+    ∃ V, T.mttkrp (.list U) n = .ok V ∧ V.length = (T.factors.getD n []).length ∧ (∀ row ∈ V, row.length = R) ∧
+      ∀ i r, i < (T.factors.getD n []).length → r < R →
+        V.get i r = Spec.mttkrp T.den (fun m x c => (U.getD m []).get x c) (fun _ => 1) n i r :=
+  MLK.tucker_mttkrp_list_spec T hT U n R hN2 hn hlen hrows hcols hpos hcpos
+
+/-- `ttensor.mttkrp(L, n)` with a Kruskal operand: its weights scale the columns. -/
+theorem C02_mttkrp_tucker_kruskal [CommSemiring α] (T : Ttensor α) (hT : ML.TuckerWF T) (L : Ktensor α) (n R : Nat)
+    (hN2 : 2 ≤ T.factors.length) (hn : n < T.factors.length) (hlen : L.factors.length = T.factors.length)
+    (hw : L.weights.length = R)
+    (hrows : ∀ m, m < T.factors.length → m ≠ n → (L.factors.getD m []).length = (T.factors.getD m []).length)
+    (hcols : ∀ m, m < T.factors.length → m ≠ n → ∀ row ∈ L.factors.getD m [], row.length = R)
+    (hpos : ∀ m, m < T.factors.length → m ≠ n → 0 < (T.factors.getD m []).length)
+    (hcpos : ∀ e ∈ T.core.shape, 0 < e) :
+    ∃ V, T.mttkrp (.kruskal L) n = .ok V ∧ V.length = (T.factors.getD n []).length ∧ (∀ row ∈ V, row.length = R) ∧
+      ∀ i r, i < (T.factors.getD n []).length → r < R →
+        V.get i r = Spec.mttkrp T.den (fun m x c => (L.factors.getD m []).get x c)
+          (fun r => L.weights.getD r 0) n i r :=
+  MLK.tucker_mttkrp_kruskal_spec T hT L n R hN2 hn hlen hw hrows hcols hpos hcpos
+
+/-- `ttensor.innerprod(tensor)` on both sides of its size switch (through `full()` when the tensor is
+smaller than its core, otherwise `D.ttm(factors, transpose=True)` paired with the core) is
+`Σ_k ⟦T⟧[k]·D[k]`; different shapes are rejected. -/
+theorem C02_innerprod_tucker_dense [CommSemiring α] (T : Ttensor α) (hT : ML.TuckerWF T)
+    (hN : 1 ≤ T.factors.length) (D : Dense α) (hD : D.WF) :
+    (T.shape = D.shape → T.innerprodDense D = .ok (Spec.inner T.den D.den)) ∧
+    (T.shape ≠ D.shape → T.innerprodDense D = .error .reject) :=
+  ⟨MLK.tucker_innerprodDense_spec T hT hN D hD, MLK.tucker_innerprodDense_rejects T D⟩
+
+/-- `ttensor.innerprod(ttensor)` (the operand with the smaller core first; the other core is
+multiplied by the matrices `AₙᵀBₙ` and paired with it) is `Σ_k ⟦T⟧[k]·⟦O⟧[k]`, whichever core is
+smaller; different shapes are rejected. -/
+theorem C02_innerprod_tucker_tucker [CommSemiring α] (T O : Ttensor α) (hT : ML.TuckerWF T) (hO : ML.TuckerWF O)
+    (hN : 1 ≤ T.factors.length) :
+    (T.shape = O.shape → T.innerprodT O = .ok (Spec.inner T.den O.den)) ∧
+    (T.shape ≠ O.shape → T.innerprodT O = .error .reject) :=
+  ⟨MLK.tucker_innerprodT_spec T O hT hO hN, MLK.tucker_innerprodT_rejects T O⟩
+
+/-- `ttensor.innerprod(sptensor)` on the `full()` side of its size switch (tensor smaller than its
+core).  Missing: the other side, which goes through the sparse `ttm` kernel. -/
+theorem C02_innerprod_tucker_sparse_partial [CommSemiring α] [DecidableEq α] (T : Ttensor α) (hT : ML.TuckerWF T)
+    (hN : 1 ≤ T.factors.length) (S : Sparse α) (hS : S.WF) (hs : T.shape = S.shape)
+    (hb : numel T.shape < numel T.core.shape) :
+    T.innerprodSparse S = .ok (Spec.inner T.den S.den) :=
+  MLK.tucker_innerprodSparse_full T hT hN S hS hs hb
+
+/-- The square of `ttensor.norm()` on both sides of its size switch (Gram matrices `UₙᵀUₙ` applied to
+the core when the tensor is larger than its core, `full()` otherwise) is `Σ_k ⟦T⟧[k]²`. -/
+theorem C02_norm_tucker [CommSemiring α] (T : Ttensor α) (hT : ML.TuckerWF T) (hN : 1 ≤ T.factors.length) :
+    T.normSq = .ok (Spec.normSq T.den) := MLK.tucker_normSq_spec T hT hN
+
+/-! ### any two representations -/
+
+/-- `x.innerprod(y)` for every pair of representations (dense, sparse, Kruskal, Tucker; 16 dispatch
+cases) is `Σ_k ⟦x⟧[k]·⟦y⟧[k]`; `MLK.InnerOk` excludes only Tucker · sparse on the sparse-`ttm` side. -/
+theorem C02_innerprod_parts [CommSemiring α] [DecidableEq α] (x y : ML.Part α) (hx : ML.PartWF x) (hy : ML.PartWF y)
+    (hs : x.shape = y.shape) (hok : MLK.InnerOk x y) :
+    x.innerprod y = .ok (Spec.inner (MLK.partDen x) (MLK.partDen y)) :=
+  MLK.part_innerprod_spec x y hx hy hs hok
+
+/-- `ttv` of an object of any representation, `dims` in any order: a scalar exactly when every mode
+is selected, and the result denotes `Spec.ttv` of what the object denotes. -/
+theorem C02_ttv_parts [CommSemiring α] [DecidableEq α] (p : ML.Part α) (hp : ML.PartWF p) (d : List Nat)
+    (vs : List (List α)) (hd : d.Nodup) (hN : ∀ x ∈ d, x < p.shape.length) (hl : vs.length = d.length)
+    (hsz : ∀ q ∈ d.zip vs, q.2.length = p.shape.getD q.1 0)
+    (w : Nat → Nat → α) (hw : ∀ q ∈ d.zip vs, ∀ k, w q.1 k = q.2.getD k 0) :
+    ∃ r, p.ttv vs (some (d.map Int.ofNat)) none = .ok r ∧
+      ((∃ v, r = .scalar v) ↔ complDims p.shape.length d = []) ∧
+      ∀ i, InBounds (gather p.shape (complDims p.shape.length d)) i →
+        MLK.partResGet r i = Spec.ttv (MLK.partDen p) d w i :=
+  MLK.part_ttv_dims p hp d vs hd hN hl hsz w hw
+
+/-- `mttkrp` of an object of any representation with a factor list: an `I_n × R` matrix with the
+defined entries (`MLK.PartPos`: a Tucker part has non-empty core modes). -/
+theorem C02_mttkrp_parts [CommSemiring α] [DecidableEq α] (p : ML.Part α) (hp : ML.PartWF p) (hpp : MLK.PartPos p)
+    (U : List (Mat α)) (n R : Nat)
+    (hN2 : 2 ≤ p.shape.length) (hn : n < p.shape.length) (hlen : U.length = p.shape.length)
+    (hrows : ∀ m, m < p.shape.length → m ≠ n → (U.getD m []).length = p.shape.getD m 0)
+    (hcols : ∀ m, m < p.shape.length → m ≠ n → ∀ row ∈ U.getD m [], row.length = R)
+    (hpos : ∀ e ∈ p.shape, 0 < e) :
+    ∃ V, p.mttkrp (.list U) n = .ok V ∧ MLK.MatShape V (p.shape.getD n 0) R ∧
+      ∀ i r, i < p.shape.getD n 0 → r < R →
+        V.get i r = Spec.mttkrp (MLK.partDen p) (fun m x c => (U.getD m []).get x c) (fun _ => 1) n i r :=
+  MLK.part_mttkrp_list p hp hpp U n R hN2 hn hlen hrows hcols hpos
+
+/-! ### sum tensors -/
+
+/-- The definitions are linear in the operand: `ttv`, `mttkrp` and the inner product of a cell-wise
+sum of arrays of one shape are the sums over the summands. -/
+theorem C02_sum_linear [CommSemiring α] (s : List Nat) (dens : List (Den α)) (hs : ∀ p ∈ dens, p.shape = s) :
+    (∀ sel w i, Spec.ttv (Spec.sumDen s dens) sel w i = (dens.map fun p => Spec.ttv p sel w i).sum) ∧
+    (∀ U lam n i r, Spec.mttkrp (Spec.sumDen s dens) U lam n i r =
+      (dens.map fun p => Spec.mttkrp p U lam n i r).sum) ∧
+    (∀ Y, Spec.inner (Spec.sumDen s dens) Y = (dens.map fun p => Spec.inner p Y).sum) :=
+  ⟨fun sel w i => MLK.spec_ttv_sum s dens sel w i hs,
+   fun U lam n i r => MLK.spec_mttkrp_sum s dens U lam n i r hs,
+   fun Y => MLK.spec_inner_sum s dens Y hs⟩
+
+/-- `sumtensor.ttv` (`dims` in any order, one vector per listed mode) for well-formed parts of any
+representations and one shape: every part is multiplied; the results are all scalars (every mode
+selected; they are added) or all tensor objects (collected into a new sum tensor); the result denotes
+`Spec.ttv` of the cell-wise sum of the parts. -/
+theorem C02_ttv_sum [CommSemiring α] [DecidableEq α] (p0 : ML.Part α) (ps : List (ML.Part α))
+    (hwf : ∀ p ∈ p0 :: ps, ML.PartWF p) (hsh : ∀ p ∈ ps, p.shape = p0.shape)
+    (d : List Nat) (vs : List (List α)) (hd : d.Nodup) (hN : ∀ x ∈ d, x < p0.shape.length) (hl : vs.length = d.length)
+    (hsz : ∀ q ∈ d.zip vs, q.2.length = p0.shape.getD q.1 0)
+    (w : Nat → Nat → α) (hw : ∀ q ∈ d.zip vs, ∀ k, w q.1 k = q.2.getD k 0) :
+    ∃ res, ML.Sumtensor.ttv (p0 :: ps) vs (some (d.map Int.ofNat)) none = .ok res ∧
+      ((∃ v, res = .scalar v) ↔ complDims p0.shape.length d = []) ∧
+      ∀ i, InBounds (gather p0.shape (complDims p0.shape.length d)) i →
+        MLK.sumResGet res i = Spec.ttv (MLK.sumDen p0.shape (p0 :: ps)) d w i :=
+  MLK.sum_ttv_full p0 ps hwf hsh d vs hd hN hl hsz w hw
+
+/-- `sumtensor.mttkrp(U, n)` with a factor list, for well-formed parts of any representations and one
+shape: the parts' `I_n × R` matrices are added entry by entry, and the result has the entries the
+definition gives for the cell-wise sum. -/
+theorem C02_mttkrp_sum [CommSemiring α] [DecidableEq α] (p0 : ML.Part α) (ps : List (ML.Part α))
+    (hwf : ∀ p ∈ p0 :: ps, ML.PartWF p) (hpp : ∀ p ∈ p0 :: ps, MLK.PartPos p) (hsh : ∀ p ∈ ps, p.shape = p0.shape)
+    (U : List (Mat α)) (n R : Nat)
+    (hN2 : 2 ≤ p0.shape.length) (hn : n < p0.shape.length) (hlen : U.length = p0.shape.length)
+    (hrows : ∀ m, m < p0.shape.length → m ≠ n → (U.getD m []).length = p0.shape.getD m 0)
+    (hcols : ∀ m, m < p0.shape.length → m ≠ n → ∀ row ∈ U.getD m [], row.length = R)
+    (hpos : ∀ e ∈ p0.shape, 0 < e) :
+    ∃ W, ML.Sumtensor.mttkrp (p0 :: ps) (.list U) n = .ok W ∧ MLK.MatShape W (p0.shape.getD n 0) R ∧
+      ∀ i r, i < p0.shape.getD n 0 → r < R →
+        W.get i r = Spec.mttkrp (MLK.sumDen p0.shape (p0 :: ps)) (fun m x c => (U.getD m []).get x c)
+          (fun _ => 1) n i r :=
+  MLK.sum_mttkrp_full p0 ps hwf hpp hsh U n R hN2 hn hlen hrows hcols hpos
+
+/-- `sumtensor.innerprod(other)` for well-formed parts of any representations and one shape: the sum
+of the parts' inner products is `Σ_k (Σ_p ⟦p⟧[k])·⟦other⟧[k]`. -/
+theorem C02_innerprod_sum [CommSemiring α] [DecidableEq α] (p0 : ML.Part α) (ps : List (ML.Part α)) (o : ML.Part α)
+    (hwf : ∀ p ∈ p0 :: ps, ML.PartWF p) (ho : ML.PartWF o) (hsh : ∀ p ∈ ps, p.shape = p0.shape)
+    (hso : p0.shape = o.shape) (hok : ∀ p ∈ p0 :: ps, MLK.InnerOk p o) :
+    ML.Sumtensor.innerprod (p0 :: ps) o = .ok (Spec.inner (MLK.sumDen p0.shape (p0 :: ps)) (MLK.partDen o)) :=
+  MLK.sum_innerprod_full p0 ps o hwf ho hsh hso hok
+
+/-- A sum tensor without parts, or with a part whose inner product is rejected, is rejected. -/
+theorem C02_innerprod_sum_rejects [Add α] [Mul α] [Zero α] [BEq α] (S : ML.Sumtensor α) (o : ML.Part α) :
+    (S = [] → ML.Sumtensor.innerprod S o = .error .reject) ∧
+    ((∃ p ∈ S, p.innerprod o = .error .reject) → ML.Sumtensor.innerprod S o = .error .reject) :=
+  ⟨fun h => by subst h; rfl, MLK.sum_innerprod_rejects S o⟩
+
+/-- The three sum-tensor operations are the sum over the parts whatever the parts are, as long as
+each part's result is the defined one (no well-formedness of the parts is used here). -/
+theorem C02_sum_of_parts [CommSemiring α] [BEq α] (p0 : ML.Part α) (ps : List (ML.Part α))
+    (hsh : ∀ p ∈ ps, p.shape = p0.shape) :
+    (∀ o, (∀ p ∈ p0 :: ps, p.innerprod o = .ok (Spec.inner (MLK.partDen p) (MLK.partDen o))) →
+      ML.Sumtensor.innerprod (p0 :: ps) o = .ok (Spec.inner (MLK.sumDen p0.shape (p0 :: ps)) (MLK.partDen o))) ∧
+    (∀ U Uf lam n I R, (∀ p ∈ p0 :: ps, ∃ V, p.mttkrp U n = .ok V ∧ MLK.MatShape V I R ∧
+        ∀ i r, i < I → r < R → V.get i r = Spec.mttkrp (MLK.partDen p) Uf lam n i r) →
+      ∃ W, ML.Sumtensor.mttkrp (p0 :: ps) U n = .ok W ∧ MLK.MatShape W I R ∧
+        ∀ i r, i < I → r < R → W.get i r = Spec.mttkrp (MLK.sumDen p0.shape (p0 :: ps)) Uf lam n i r) ∧
+    (∀ vs dims excl sel w rshape, (∀ p ∈ p0 :: ps, ∃ r, p.ttv vs dims excl = .ok r ∧
+        ((∃ v, r = .scalar v) ↔ rshape = []) ∧
+        ∀ i, InBounds rshape i → MLK.partResGet r i = Spec.ttv (MLK.partDen p) sel w i) →
+      ∃ res, ML.Sumtensor.ttv (p0 :: ps) vs dims excl = .ok res ∧ ((∃ v, res = .scalar v) ↔ rshape = []) ∧
+        ∀ i, InBounds rshape i → MLK.sumResGet res i = Spec.ttv (MLK.sumDen p0.shape (p0 :: ps)) sel w i) :=
+  ⟨fun o h => MLK.sum_innerprod_spec p0 ps o hsh h,
+   fun U Uf lam n I R h => MLK.sum_mttkrp_spec p0 ps U Uf lam n I R hsh h,
+   fun vs dims excl sel w rshape h => MLK.sum_ttv_spec p0 ps vs dims excl sel w rshape hsh h⟩
+
+/-! ### non-vacuity -/
+
+/-- A rank-2 Kruskal tensor of shape `2 × 3` with weights of both signs. -/
+example : (⟨[2, -1], [[[1, 2], [3, 4]], [[1, 0], [0, 1], [2, 2]]]⟩ : Ktensor Int).ttv [[1, 1, 1]] (some [1]) none =
+    .ok (.obj ⟨[6, -3], [[[1, 2], [3, 4]]]⟩) := by decide +kernel
+example : (⟨[2, -1], [[[1, 2], [3, 4]], [[1, 0], [0, 1], [2, 2]]]⟩ : Ktensor Int).ttvCore
+    [(0, [1, 1]), (1, [1, 1, 1])] = .ok (.scalar 6) := by decide +kernel
+example : (⟨[2, -1], [[[1, 2], [3, 4]], [[1, 0], [0, 1], [2, 2]]]⟩ : Ktensor Int).normSq = 76 := by decide +kernel
+example : Spec.normSq (⟨[2, -1], [[[1, 2], [3, 4]], [[1, 0], [0, 1], [2, 2]]]⟩ : Ktensor Int).den = 76 := by
+  decide +kernel
+example : (⟨[2, -1], [[[1, 2], [3, 4]], [[1, 0], [0, 1], [2, 2]]]⟩ : Ktensor Int).mttkrp
+    (.list [[], [[1, -1], [2, 0], [1, 1]]]) 0 = .ok [[-2, -2], [2, -2]] := by decide +kernel
+/-- A well-formed Tucker tensor (core `2 × 2`, shape `3 × 2`). -/
+example : ML.TuckerWF (⟨⟨[2, 2], [1, 2, 3, 4]⟩, [[[1, 0], [0, 1], [1, 1]], [[1, 2], [0, 1]]]⟩ : Ttensor Int) :=
+  ⟨rfl, rfl, by decide⟩
+example : Spec.normSq (⟨⟨[2, 2], [1, 2, 3, 4]⟩, [[[1, 0], [0, 1], [1, 1]], [[1, 2], [0, 1]]]⟩ : Ttensor Int).den = 512 := by
+  decide +kernel
+example : (⟨⟨[2, 2], [1, 2, 3, 4]⟩, [[[1, 0], [0, 1], [1, 1]], [[1, 2], [0, 1]]]⟩ : Ttensor Int).ttvCore [(1, [1, 1])] =
+    .ok (.obj ⟨⟨[2], [10, 14]⟩, [[[1, 0], [0, 1], [1, 1]]]⟩) := by decide +kernel
+example : (⟨⟨[2, 2], [1, 2, 3, 4]⟩, [[[1, 0], [0, 1], [1, 1]], [[1, 2], [0, 1]]]⟩ : Ttensor Int).mttkrp
+    (.list [[], [[1, -1], [2, 0]]]) 0 = .ok [[13, -7], [18, -10], [31, -17]] := by decide +kernel
+/-- A sum tensor with a dense and a Kruskal part: `ttv` in mode 1 leaves a sum tensor of two parts. -/
+example : ML.Sumtensor.ttv [.dense ⟨[2, 3], [1, 2, 3, 4, 5, 6]⟩,
+      .kruskal (⟨[2, -1], [[[1, 2], [3, 4]], [[1, 0], [0, 1], [2, 2]]]⟩ : Ktensor Int)] [[1, 1, 1]] (some [1]) none =
+    .ok (.obj [.dense ⟨[2], [9, 12]⟩, .kruskal ⟨[6, -3], [[[1, 2], [3, 4]]]⟩]) := by decide +kernel
 
 end Pyttb
